@@ -294,6 +294,9 @@ def main(chk: core.Check) -> int:
         chk.coverage["traces_validated_against_impl"] = n
         if not chk.failing:
             small_steps_and_layouts(chk, chk.tier == "thorough")
+        if not chk.failing:
+            from checks import c07
+            c07.deep_views_and_pivot_kinds(chk)         # pivots stored in other coordinate systems / field orders, views of deep arrays
         if diffs:
             chk.obligation_broken("correspondence", "chained Lean Float changePivot vs implementation", str(diffs[:2]))
     except core.DriverError as ex:
